@@ -118,6 +118,11 @@ func DeBlobProgramCode(data []byte) (_ Program, _ ExitReason) {
 		return Program{}, ExitPanic
 	}
 
+	// the declared code length must not exceed what is left of the blob
+	if instSize > uint64(len(data)) {
+		pvmLogger.Errorf("instruction size %d exceeds the remaining %d bytes", instSize, len(data))
+		return Program{}, ExitPanic
+	}
 	instructions := data[:instSize]
 	bitmaskData := data[instSize:]
 	bitmask, exitReason := MakeBitMasks(instructions, bitmaskData)
